@@ -102,8 +102,13 @@ var (
 	TotalSteps int64
 )
 
+var siteHits [8192]int64
+
 func budgetHook(site int) {
 	stepCount++
+	if site >= 0 && site < len(siteHits) {
+		siteHits[site]++
+	}
 	if stepCount > stepLimit {
 		stepLimit = 1 << 62
 		panic(BudgetPanic{})
@@ -200,6 +205,9 @@ type Spec struct {
 	RunOne      func(r *Run)
 	// Extra is called by the coordinator to add engine-specific coverage keys.
 	Extra func(counters map[string]int64, cov map[string]interface{})
+	// ProbeFuncs: functions of the tree under test (as "pkg.Func" / "pkg.Recv.Method")
+	// whose generated yield sites are counted and reported as probes "reached:<func>".
+	ProbeFuncs []string
 	// OwnHook: the engine installs its own yield hook (the scheduler); the driver's
 	// step-budget hook is not installed.
 	OwnHook bool
@@ -652,6 +660,29 @@ func runWorker(s *Spec, tier string, seed uint64, wi, wn int, plan Plan, ks []kn
 	}
 	if s.Finish != nil {
 		s.Finish(wo.Counters)
+	}
+	if len(s.ProbeFuncs) > 0 {
+		type siteInfo struct {
+			ID   int    `json:"id"`
+			Func string `json:"func"`
+		}
+		var sites []siteInfo
+		if b, err := os.ReadFile(os.Getenv("VERIF_SITES")); err == nil {
+			json.Unmarshal(b, &sites)
+		}
+		for _, fn := range s.ProbeFuncs {
+			var hits int64
+			found := false
+			for _, si := range sites {
+				if si.Func == fn && si.ID < len(siteHits) {
+					hits += siteHits[si.ID]
+					found = true
+				}
+			}
+			if found {
+				wo.Counters["probe.reached:"+fn] += hits
+			}
+		}
 	}
 	wo.Steps = TotalSteps
 	b, _ := json.Marshal(wo)
